@@ -115,6 +115,14 @@ func genCloseSpec(seed uint64, tier string) *spec.RunSpec {
 	switch profile {
 	case 3:
 		kind := []string{"client-stop", "server-stop"}[r.Intn(2)]
+		if r.Bool(0.5) {
+			// land the Stop inside a dial: between the start of a session of client 0 and the
+			// end of its open / SOCKS handshake (one to three round trips later)
+			se := s.Clients[0].Sessions[r.Intn(len(s.Clients[0].Sessions))]
+			lat := s.Net.LatencyUs
+			evAt = se.StartUs + int64(r.Pick(1, int(lat/2), int(lat), int(3*lat/2), int(2*lat), int(3*lat), int(4*lat)))
+			s.Profile += "-during-dial"
+		}
 		cs.Events = append(cs.Events, spec.Event{AtUs: evAt, Kind: kind, Arg: 0})
 	case 5:
 		evAt = int64(r.Pick(20000000, 40000000))
